@@ -36,6 +36,11 @@ fn(
         # the send task does right after a full final frame)
         ("C08.release.pop", "implies(len(result) < BUFFER_LOW_WATER and len(self.buffer) < BUFFER_HIGH_WATER, self._paused.flag)", "C08,C09"),
         ("C08.bound.pop", "implies(self._paused.flag and not old(self._paused.flag), len(self.buffer) < BUFFER_HIGH_WATER)", "C08"),
+        # C16 / C08: the two events are waited on by the sending application's task (push, drain)
+        # and are cleared only by that task (push); pop -- run by the send task -- only ever sets
+        # them.  On the trio worker clear() replaces the underlying event, so a clear by another
+        # task while the application is parked in drain() / push() would strand it for ever.
+        ("C16.pop.clears-nothing", "count_calls('Event.clear') == 0", "C16,C08,C09"),
     ],
     modifies=["self.buffer", "self._paused.flag", "self._is_empty.flag"],
     effect="atomic",
